@@ -209,3 +209,16 @@ MUTANTS += [
  ('C08', 'in-progress-flag-not-reset', FS, "            with self._lock:\n                self._pack_is_in_progress = False\n\n        if not self.pack_keep_old:", "            pass\n\n        if not self.pack_keep_old:"),
  ('C08', 'restore-on-failure-removed', FS, "                        if not os.path.exists(self._file_name):\n                            os.rename(oldpath, self._file_name)\n                        self._file = open(self._file_name, 'r+b')\n                        raise", "                        raise"),
 ]
+EI = 'ExportImport.py'
+MUTANTS += [
+ ('C14', 'import-never-reuses-remapped-oid', EI, "            if ooid in oids:\n                oid = oids[ooid]\n            else:", "            if False:\n                oid = oids[ooid]\n            else:"),
+ ('C14', 'export-skips-second-level', EI, "                referencesf(p, oids)\n                f.writelines([oid, p64(len(p)), p])", "                if len(done_oids) < 2:\n                    referencesf(p, oids)\n                f.writelines([oid, p64(len(p)), p])"),
+ ('C15', 'aware-datetime-offset-ignored', 'DB.py', "    utc_struct = dt.utctimetuple()", "    utc_struct = dt.timetuple()"),
+ ('C15', 'secondary-connection-not-historical', 'Connection.py', "                transaction_manager=self.transaction_manager,\n                before=self.before,\n            )", "                transaction_manager=self.transaction_manager,\n            )"),
+ ('C15', 'multidb-future-check-regress', 'DB.py', "            last = max(db.lastTransaction()\n                       for db in self.databases.values())", "            last = self.lastTransaction()"),
+ ('C17', 'blob-copy-as-plain-restore', 'blob.py', "                destination.restoreBlob(record.oid, record.tid, record.data,\n                                        name, record.data_txn, trans)", "                os.remove(name)\n                destination.restore(record.oid, record.tid, record.data,\n                                    '', record.data_txn, trans)"),
+ ('C17', 'blob-copy-truncated', 'blob.py', "                with open(blobfilename, 'rb') as sf:\n                    with open(name, 'wb') as df:\n                        utils.cp(sf, df)", "                with open(blobfilename, 'rb') as sf:\n                    with open(name, 'wb') as df:\n                        utils.cp(sf, df, 4096)"),
+ ('C17', 'blob-copy-skips-backpointer-records', 'blob.py', "            if is_blob_record(record.data):\n                try:\n                    blobfilename = source.loadBlob(record.oid, record.tid)", "            if record.data_txn is None and is_blob_record(record.data):\n                try:\n                    blobfilename = source.loadBlob(record.oid, record.tid)"),
+ ('C17', 'datafind-regress-first-record', 'FileStorage/fspack.py', None, None),
+]
+MUTANTS = [m for m in MUTANTS if m[3] is not None]
